@@ -271,24 +271,26 @@ fn gen_statements(fields: &Fields, encoding: Encoding) -> syn::Result<proc_macro
                 if let Some(p) = cd.to_nil_path() {
                     quote! {
                         Err(e) if e.is_unknown_variant() && #p().is_some() => {
+                            __d777.set_position(__p779);
                             __d777.skip()?
                         }
                     }
                 } else if is_option(&field.typ, |_| true) {
                     quote! {
-                        Err(e) if e.is_unknown_variant() => __d777.skip()?,
+                        Err(e) if e.is_unknown_variant() => { __d777.set_position(__p779); __d777.skip()? }
                     }
                 } else {
                     quote!()
                 }
             } else if is_option(&field.typ, |_| true) {
                 quote! {
-                    Err(e) if e.is_unknown_variant() => __d777.skip()?,
+                    Err(e) if e.is_unknown_variant() => { __d777.set_position(__p779); __d777.skip()? }
                 }
             } else {
                 let ty = &field.typ;
                 quote! {
                     Err(e) if e.is_unknown_variant() && <#ty as minicbor::Decode::<Ctx>>::nil().is_some() => {
+                        __d777.set_position(__p779);
                         __d777.skip()?
                     }
                 }
@@ -309,6 +311,8 @@ fn gen_statements(fields: &Fields, encoding: Encoding) -> syn::Result<proc_macro
                 };
 
             let tag  = decode_tag(&field.attrs);
+            // The unknown-variant arms skip the whole value, from its first byte.
+            let tag  = quote!(#tag let __p779 = __d777.position(););
             let name = &field.ident;
 
             quote! {{
